@@ -182,7 +182,7 @@ def grid_hash():
     """add_data of the working tree on hand-built messages: over a grid of ids and key-field raw values (None, ints,
     a float, text), equal (id, key raws) <=> equal hash, and non-key raws / addressing are ignored."""
     from nmea2000.message import NMEA2000Message, NMEA2000Field
-    vals = [None, 0, 1, 12, 1.5, 'None', '1']
+    vals = [None, 0, 1, 12, 1.5, 'None', '1', 'ØRESUND', 'ÅRESUND', 'RESUND', 'Køge', '港A', '湾A']      # texts that differ only in non-ASCII characters
 
     def mk(mid, keys, other, src):
         fs = [NMEA2000Field(id=f'k{i}', part_of_primary_key=True, raw_value=v, value=v) for i, v in enumerate(keys)]
